@@ -564,6 +564,418 @@ Theorem C03_correct_gap_is_source : forall st,
   else mktm (rules st) (fn st) (gsize st) new (queue st) (held st).
 Proof. exact correct_gap_is_source. Qed.
 
+
+(* ======================= LAYER S and LAYER B =======================
+   Layer A (Forest/Model.v, all theorems above) decides firing from the value table and
+   re-queues "the rules mentioning c that can fire, once each, in index order".  The CODE
+   fires from the CACHED _shifts rows (updated by -1/+1/None), re-queues through
+   _rules_pumping_class/_rules_using_class (once per registered (rule, child) pair, tested on
+   half-updated rows), maintains _preimage_count incrementally, grows the value table only by
+   the lookups it really makes, and iterates a Python set.  Layer B (Forest/ModelB.v)
+   transcribes exactly that.  Layer S (Forest/SchedDefs.v) is layer A with the three choices
+   left open (any admissible re-queue list, any release order of the held set, any
+   admissible growth of the table).
+
+   GENERALISED (Forest/Sched*.v): every layer-A theorem is re-proved for EVERY schedule of
+   layer S (theorems C03_S_...); layer A is one schedule (C03_A_is_S).
+   REFINEMENT (Forest/RefineB*.v): each iteration of layer B's loop, viewed through absB
+   (forget the cache and the indices), is an iteration of layer S, and the invariant BInv
+   — cached rows = _compute_shift of the CURRENT table for every live rule; the two
+   indices = exactly the live (rule, child) pairs, no duplicates; _preimage_count =
+   histogram; no `assert` failed — is preserved (C03_B_lockstep, C03_B_refines_S).
+   Hence B's observable answers equal A's after every operation (C03_B_refines_A,
+   C03_B_harness_obs_equal) and all C03 theorems hold for layer B (theorems C03_B_...).
+   `perm_ok ord` : ord (the iteration order of the held set) returns a permutation. *)
+From CSS Require Import Forest.ModelB Forest.SchedDefs Forest.SchedInvariant Forest.SchedCorrect
+  Forest.SchedTermination Forest.RefineBInv Forest.RefineBSteps Forest.RefineB Forest.RefineBRun.
+
+(* ---- layer S: every schedule ---- *)
+Theorem C03_A_is_S : forall pick fuel ops st st',
+  run pick fuel st ops = Some st' -> sruns st ops st'.
+Proof. exact A_run_is_S. Qed.
+
+Theorem C03_S_sound_complete : forall ops st, sruns init ops st ->
+  forall c, (pumping_answer st c = true <-> pumps (keys_of ops) c) /\
+            (forall n, getf (fn st) c = Some n <-> terms (keys_of ops) c n).
+Proof. exact S_sound_complete. Qed.
+
+Theorem C03_S_order_independent : forall ops ops' st st',
+  sruns init ops st -> sruns init ops' st' ->
+  (forall r, In r (keys_of ops) <-> In r (keys_of ops')) ->
+  forall c, getf (fn st) c = getf (fn st') c.
+Proof. exact S_order_independent. Qed.
+
+Theorem C03_S_monotone : forall ops ops' st st',
+  sruns init ops st -> sruns init ops' st' -> incl (keys_of ops) (keys_of ops') ->
+  forall c, match getf (fn st) c, getf (fn st') c with
+            | None, None => True | None, Some _ => False
+            | Some n, Some m => n <= m | Some _, None => True end.
+Proof. exact S_monotone. Qed.
+
+Theorem C03_S_pumping_subuniverse : forall ops st, sruns init ops st ->
+  forall i, In i (pumping_subuniverse st) <->
+    (i < length (keys_of ops))%nat /\
+    let r := nth i (keys_of ops) dummy in
+    pumps (keys_of ops) (parent r) /\ forall c s, In (c, s) (kids r) -> pumps (keys_of ops) c.
+Proof. exact S_subuniverse_spec. Qed.
+
+(* termination for every schedule: an iteration preserves TInvS and strictly decreases
+   mu_s = (2*slots(rules) + |rules| + 1) * pot + 2|queue| + |held|, slots = SUM_r (1 + arity r);
+   no chain of iterations is longer than mu_s *)
+Theorem C03_S_iteration_decreases : forall st st',
+  TInvS st -> sstep st st' -> TInvS st' /\ SameS st st' /\ mu_s st' < mu_s st.
+Proof. exact sstep_decreases. Qed.
+
+Theorem C03_S_chain_bounded : forall n st st',
+  TInvS st -> schain n st st' -> Z.of_nat n <= mu_s st.
+Proof. exact S_chain_bounded. Qed.
+
+(* ---- layer B: lock-step refinement ---- *)
+Theorem C03_B_lockstep : forall pick ord b b', perm_ok ord -> BInv b -> InvS (absB b) [] ->
+  pstepB pick ord b = Some b' -> sstep (absB b) (absB b') /\ BInv b'.
+Proof. exact pstepB_sim. Qed.
+
+Theorem C03_B_loop_is_pstepB : forall pick ord fuel b,
+  processB pick ord (S fuel) b =
+  match pstepB pick ord b with None => Some b | Some b' => processB pick ord fuel b' end.
+Proof. exact processB_unfold. Qed.
+
+(* every history: layer B is a run of layer S and the layer-B invariant holds at the end
+   (hence after every operation: every prefix is a history) *)
+Theorem C03_B_refines_S : forall pick ord fuel ops b, perm_ok ord ->
+  runB pick ord fuel initB ops = Some b -> sruns init ops (absB b) /\ BInv b.
+Proof. exact B_refines_S. Qed.
+
+(* what BInv says about the cache: the CACHED row the code fires from is what
+   _compute_shift (re-translated from forest.py) returns on the CURRENT value table *)
+Theorem C03_B_cached_shifts_current : forall pick ord fuel ops b i, perm_ok ord ->
+  runB pick ord fuel initB ops = Some b ->
+  (i < length (b_rules b))%nat -> getf (fB b) (parent (ruleB b i)) <> None ->
+  nth i (b_shifts b) [] =
+  ForestComputeShift.compute_shift (getf (fB b) (parent (ruleB b i)))
+    (map (fun cs => getf (fB b) (fst cs)) (kids (ruleB b i))) (map snd (kids (ruleB b i))).
+Proof.
+  intros pick ord fuel ops b i Hord H Hi Hl.
+  exact (bi_rows b (proj2 (B_refines_S pick ord fuel ops b Hord H)) i Hi Hl).
+Qed.
+
+(* no `assert` of forest.py (current_shift is not None; current_value > gap end; queue empty) fails *)
+Theorem C03_B_never_asserts : forall pick ord fuel ops b, perm_ok ord ->
+  runB pick ord fuel initB ops = Some b -> b_fail b = false.
+Proof. exact runB_never_asserts. Qed.
+
+(* C03_B_refines_A: same history => the same observable answers (function, pumping_subuniverse,
+   is_pumping, and the value of every class), whatever set.pop() does in either run, whatever the
+   iteration order of the held set, whatever the fuels *)
+Theorem C03_B_refines_A : forall pick ord fuel pick' fuel' ops b st, perm_ok ord ->
+  runB pick ord fuel initB ops = Some b -> run pick' fuel' init ops = Some st ->
+  b_rules b = rules st /\
+  (forall c, getf (fB b) c = getf (fn st) c) /\
+  function_dictB b = function_dict st /\
+  pumping_subuniverseB b = pumping_subuniverse st /\
+  (forall c, pumping_answerB b c = pumping_answer st c).
+Proof. exact B_refines_A. Qed.
+
+(* ---- the C03 theorems for layer B ---- *)
+Theorem C03_B_sound_complete : forall pick ord fuel ops b, perm_ok ord ->
+  runB pick ord fuel initB ops = Some b ->
+  forall c, (pumping_answerB b c = true <-> pumps (keys_of ops) c) /\
+            (forall n, getf (fB b) c = Some n <-> terms (keys_of ops) c n).
+Proof. exact B_sound_complete. Qed.
+
+Theorem C03_B_order_independent : forall pick ord fuel pick' ord' fuel' ops ops' b b',
+  perm_ok ord -> perm_ok ord' ->
+  runB pick ord fuel initB ops = Some b -> runB pick' ord' fuel' initB ops' = Some b' ->
+  (forall r, In r (keys_of ops) <-> In r (keys_of ops')) ->
+  forall c, getf (fB b) c = getf (fB b') c.
+Proof. exact B_order_independent. Qed.
+
+Theorem C03_B_monotone : forall pick ord fuel pick' ord' fuel' ops ops' b b',
+  perm_ok ord -> perm_ok ord' ->
+  runB pick ord fuel initB ops = Some b -> runB pick' ord' fuel' initB ops' = Some b' ->
+  incl (keys_of ops) (keys_of ops') ->
+  forall c, match getf (fB b) c, getf (fB b') c with
+            | None, None => True | None, Some _ => False
+            | Some n, Some m => n <= m | Some _, None => True end.
+Proof. exact B_monotone. Qed.
+
+Theorem C03_B_pumping_subuniverse : forall pick ord fuel ops b, perm_ok ord ->
+  runB pick ord fuel initB ops = Some b ->
+  forall i, In i (pumping_subuniverseB b) <->
+    (i < length (keys_of ops))%nat /\
+    let r := nth i (keys_of ops) dummy in
+    pumps (keys_of ops) (parent r) /\ forall c s, In (c, s) (kids r) -> pumps (keys_of ops) c.
+Proof. exact B_subuniverse_spec. Qed.
+
+(* TERMINATION of layer B, with the explicit bound
+     fuel_boundS ops = (2*slots + R + 1) * n * ((n+1)*g + 2) + 3,   slots = SUM_keys (1 + arity)
+   (layer A's bound with the weight 3R+1 replaced: the code re-queues a rule once per
+   registered (rule, child) pair).  fuel_bound <= fuel_boundS, equal when all arities are 0. *)
+Theorem C03_B_terminates : forall pick ord ops fuel, perm_ok ord ->
+  (fuel_boundS ops <= fuel)%nat -> exists b, runB pick ord fuel initB ops = Some b.
+Proof. exact runB_terminates. Qed.
+
+Theorem C03_B_process_terminates : forall pick ord, perm_ok ord -> forall fuel b,
+  BInv b -> TInvS (absB b) -> mu_s (absB b) < Z.of_nat fuel ->
+  exists b', processB pick ord fuel b = Some b'.
+Proof. exact processB_terminates. Qed.
+
+Theorem C03_B_fuel_boundS_explicit : forall ops,
+  Z.of_nat (fuel_boundS ops) =
+  (2 * slots (keys_of ops) + Z.of_nat (length (keys_of ops)) + 1) *
+    ((max_label ops + 1) * ((max_label ops + 1 + 1) * max_shift ops + 2)) + 3.
+Proof. exact fuel_boundS_explicit. Qed.
+
+Theorem C03_fuel_bound_le_S : forall ops, (fuel_bound ops <= fuel_boundS ops)%nat.
+Proof. exact fuel_bound_le_S. Qed.
+
+(* "layer B terminates within layer A's fuel_bound" is FALSE: one key 0 -> (0 shift 5) x 10.
+   Layer A needs at most 51 iterations; the code's queue receives 11 entries per increase *)
+Definition c3_rep10 : list op := [AddKey (mkkey 0 (repeat (0%nat, 5) 10))].
+Theorem C03_B_same_fuel_bound_refuted :
+  fuel_bound c3_rep10 = 51%nat /\ runB pick0 ord_id 51 initB c3_rep10 = None /\
+  (exists st, run pick0 51 init c3_rep10 = Some st) /\
+  (exists b, runB pick0 ord_id 58 initB c3_rep10 = Some b) /\ fuel_boundS c3_rep10 = 291%nat.
+Proof. repeat split; try (eexists; vm_compute; reflexivity); vm_compute; reflexivity. Qed.
+
+Theorem C03_B_run_total : forall pick ord ops, perm_ok ord ->
+  runB pick ord (fuel_boundS ops) initB ops = Some (runB_total pick ord ops).
+Proof. exact runB_total_spec. Qed.
+
+Theorem C03_B_fuel_irrelevant : forall pick ord fuel ops b, perm_ok ord ->
+  runB pick ord fuel initB ops = Some b -> b = runB_total pick ord ops.
+Proof. exact runB_some_is_total. Qed.
+
+Theorem C03_B_refines_A_total : forall pick ord pick' ops, perm_ok ord ->
+  let b := runB_total pick ord ops in let st := run_total pick' ops in
+  b_rules b = rules st /\
+  (forall c, getf (fB b) c = getf (fn st) c) /\
+  function_dictB b = function_dict st /\
+  pumping_subuniverseB b = pumping_subuniverse st /\
+  (forall c, pumping_answerB b c = pumping_answer st c).
+Proof. exact B_refines_A_total. Qed.
+
+(* what the harness runs: the observable answers of the extracted layer-B model, one per
+   operation, ARE those of the extracted layer-A model (whatever internals are supplied for the
+   informational comparison); in particular never (-1) out of fuel, never (-2) assertion *)
+Theorem C03_B_harness_obs_equal : forall ops ints,
+  fst (run_obsB (fuel_forB ops) initB ops ints) = run_obs (fuel_for ops) init ops.
+Proof. exact run_obsB_is_run_obs. Qed.
+
+Theorem C03_B_harness_never_out_of_fuel : forall ops ints,
+  ~ In (L [I (-1)]) (fst (run_obsB (fuel_forB ops) initB ops ints)) /\
+  ~ In (L [I (-2)]) (fst (run_obsB (fuel_forB ops) initB ops ints)).
+Proof. intros ops ints. split; [apply run_obsB_never_out_of_fuel|apply run_obsB_never_asserts]. Qed.
+
+(* ---- non-vacuity of the layer-S / layer-B theorems (every premise discharged on instances) ---- *)
+(* a history where the code's bookkeeping is busy: repeated children, a rule that is its own
+   child, negative shifts, a class that becomes infinite while rules using it are registered *)
+Definition c3_rep : list op :=
+  [AddKey (mkkey 1 [(2%nat, 1)]); AddKey (mkkey 0 [(0%nat, 1); (0%nat, 2); (1%nat, 0)]);
+   IsPumping 5; AddKey (mkkey 3 [(0%nat, -1); (1%nat, -2)]); AddKey (mkkey 2 [(2%nat, 1); (2%nat, 1)])].
+Definition ord_rev (l : list nat) : list nat := rev l.
+Lemma perm_ok_rev : perm_ok ord_rev.
+Proof. intros l. apply Permutation_sym, Permutation_rev. Qed.
+Definition c3_b : tmB := Eval vm_compute in runB_total pick0 ord_id c3_rep.
+Definition c3_b' : tmB := Eval vm_compute in runB_total pickL ord_rev c3_ops'.
+Definition c3_bo : tmB := Eval vm_compute in runB_total pick0 ord_id c3_ops.
+Lemma c3_brun : runB pick0 ord_id 400 initB c3_rep = Some c3_b.    Proof. vm_compute. reflexivity. Qed.
+Lemma c3_brun' : runB pickL ord_rev 400 initB c3_ops' = Some c3_b'. Proof. vm_compute. reflexivity. Qed.
+Lemma c3_bruno : runB pick0 ord_id 400 initB c3_ops = Some c3_bo.  Proof. vm_compute. reflexivity. Qed.
+Lemma c3_arun_rep : exists st, run pickL 400 init c3_rep = Some st. Proof. eexists. vm_compute. reflexivity. Qed.
+
+(* the internals of layer B at the end of c3_rep: every class of a key pumps, the cached rows are
+   stale (never read again), the indices are emptied, the counts maintained *)
+Example c3_b_internals :
+  map (getf (fB c3_b)) [0; 1; 2; 3; 5]%nat = [None; None; None; None; Some 0] /\
+  fpc (b_fn c3_b) = [2; 0; 0; 0; 0; 0] /\ finf (b_fn c3_b) = 4 /\ b_fail c3_b = false /\
+  b_pumping c3_b = [[]; []; []; []] /\ b_using c3_b = [[]; []; []; []] /\
+  b_shifts c3_b = [[Some 1]; [Some 1; Some 2; None]; [None; None]; [Some 1; Some 1]].
+Proof. repeat split. Qed.
+(* ... and in the middle of a history, where rules are live: after the first key of c3_fin
+   (0 -> (1 shift 2)), class 0 has 2 terms, the cached row of rule 0 is [0 + 2 - 2] = [0],
+   rule 0 is registered under its parent 0 and under its child 1 *)
+Definition c3_bmid : tmB := Eval vm_compute in runB_total pick0 ord_id (firstn 1 c3_fin).
+Example c3_bmid_internals :
+  b_shifts c3_bmid = [[Some 0]] /\ b_pumping c3_bmid = [[0%nat]] /\
+  b_using c3_bmid = [[]; [(0%nat, 0%nat)]] /\ map (getf (fB c3_bmid)) [0; 1]%nat = [Some 2; Some 0] /\
+  fpc (b_fn c3_bmid) = [1; 0; 1].
+Proof. repeat split. Qed.
+
+Example C03_A_is_S_nonvacuous : sruns init c3_ops c3_st.
+Proof. exact (C03_A_is_S pick0 200 c3_ops init c3_st c3_run). Qed.
+Example C03_S_sound_complete_nonvacuous : pumps (keys_of c3_ops) 1 /\ terms (keys_of c3_rep) 5 0.
+Proof.
+  split.
+  - apply (C03_S_sound_complete c3_ops c3_st C03_A_is_S_nonvacuous 1%nat). reflexivity.
+  - apply (C03_S_sound_complete c3_rep (absB c3_b) (proj1 (C03_B_refines_S pick0 ord_id 400 c3_rep c3_b perm_ok_id c3_brun)) 5%nat).
+    reflexivity.
+Qed.
+(* two different schedules of layer S (layer A with pick0, layer B with pickL and reversed set
+   order, other insertion order and multiplicity) agree *)
+Example C03_S_order_independent_nonvacuous : forall c, getf (fn c3_st) c = getf (fB c3_b') c.
+Proof.
+  exact (C03_S_order_independent c3_ops c3_ops' c3_st (absB c3_b') C03_A_is_S_nonvacuous
+           (proj1 (C03_B_refines_S pickL ord_rev 400 c3_ops' c3_b' perm_ok_rev c3_brun')) c3_same_set).
+Qed.
+Example C03_S_monotone_nonvacuous :
+  forall c, match getf (fn c3_fst) c, getf (fn c3_fst') c with
+            | None, None => True | None, Some _ => False
+            | Some n, Some m => n <= m | Some _, None => True end.
+Proof.
+  exact (C03_S_monotone c3_fin c3_fin' c3_fst c3_fst' (C03_A_is_S pick0 200 c3_fin init c3_fst c3_frun)
+           (C03_A_is_S pickL 300 c3_fin' init c3_fst' c3_frun') c3_incl).
+Qed.
+Example C03_S_pumping_subuniverse_nonvacuous : In 0%nat (pumping_subuniverse c3_st) ->
+  pumps (keys_of c3_ops) 0 /\ forall c s, In (c, s) [(1%nat, 1)] -> pumps (keys_of c3_ops) c.
+Proof. intros H. exact (proj2 (proj1 (C03_S_pumping_subuniverse c3_ops c3_st C03_A_is_S_nonvacuous 0%nat) H)). Qed.
+
+(* covers C03_B_lockstep, C03_S_iteration_decreases, C03_S_chain_bounded, C03_B_process_terminates on
+   the state add_rule_key hands to the loop when the last key (2 -> (2 shift 1)(2 shift 1)) of
+   c3_rep is inserted: reachable, non-final, live rules with repeated children registered in both
+   indices; its invariants are PROVED, not assumed *)
+Definition c3_last : fkey := mkkey 2 [(2%nat, 1); (2%nat, 1)].
+Definition c3_bbefore : tmB := Eval vm_compute in runB_total pick0 ord_id (firstn 4 c3_rep).
+Definition c3_bpre : tmB := Eval vm_compute in pre_processB ord_id c3_bbefore c3_last.
+Definition c3_bs1 : tmB := Eval vm_compute in match pstepB pick0 ord_id c3_bpre with Some s => s | None => initB end.
+Lemma c3_bpre_inv : BInv c3_bpre /\ TInvS (absB c3_bpre).
+Proof.
+  assert (runB pick0 ord_id 400 initB (firstn 4 c3_rep) = Some c3_bbefore) as Hr by (vm_compute; reflexivity).
+  destruct (C03_B_refines_S pick0 ord_id 400 _ _ perm_ok_id Hr) as [R I].
+  destruct (sruns_init_rules _ _ R) as [F _].
+  assert (GapBound (absB c3_bbefore)) as HB by (unfold GapBound; vm_compute; discriminate).
+  destruct (pre_processB_sim ord_id c3_bbefore c3_last I) as (Ea & Hext & I3).
+  destruct (pre_process_s_inv (absB c3_bbefore) c3_last _ (ord_id (b_held c3_bbefore)) F Hext (perm_ok_id _)) as [V3 _].
+  destruct (pre_process_s_fields (absB c3_bbefore) c3_last _ (ord_id (b_held c3_bbefore)) F HB Hext (perm_ok_id _)) as (_ & _ & Eh & _ & HB3).
+  rewrite <- Ea in V3, Eh, HB3. change (pre_processB ord_id c3_bbefore c3_last) with c3_bpre in *.
+  split; [exact I3|]. split; [exact V3|]. split; [rewrite Eh; constructor|exact HB3].
+Qed.
+Lemma c3_bstep1 : pstepB pick0 ord_id c3_bpre = Some c3_bs1.  Proof. vm_compute. reflexivity. Qed.
+Example C03_B_lockstep_nonvacuous :
+  sstep (absB c3_bpre) (absB c3_bs1) /\ BInv c3_bs1 /\ mu_s (absB c3_bs1) < mu_s (absB c3_bpre).
+Proof.
+  destruct c3_bpre_inv as [I T].
+  destruct (C03_B_lockstep pick0 ord_id c3_bpre c3_bs1 perm_ok_id I (proj1 T) c3_bstep1) as [S I1].
+  split; [exact S|]. split; [exact I1|].
+  exact (proj2 (proj2 (C03_S_iteration_decreases _ _ T S))).
+Qed.
+(* one iteration: rule 3 fires, class 2 goes from 0 to 1; the cached row of rule 0 = 1 -> (2 shift 1)
+   is bumped from [0] to [1] through _rules_using_class[2] = [(0,0); (3,0); (3,1)], the row of rule 3
+   itself is decremented through _rules_pumping_class[2] and incremented twice; rules 0 and 3 are
+   re-queued in the order of the code *)
+Example C03_B_lockstep_values :
+  b_queue c3_bpre = [3%nat] /\ getf (fB c3_bpre) 2 = Some 0 /\ getf (fB c3_bs1) 2 = Some 1 /\
+  dl_get (b_using c3_bpre) 2 = [(0%nat, 0%nat); (3%nat, 0%nat); (3%nat, 1%nat)] /\
+  dl_get (b_pumping c3_bpre) 2 = [3%nat] /\
+  nth 0 (b_shifts c3_bpre) [] = [Some 0] /\ nth 0 (b_shifts c3_bs1) [] = [Some 1] /\
+  nth 3 (b_shifts c3_bs1) [] = [Some 1; Some 1] /\ b_queue c3_bs1 = [0%nat; 3%nat] /\
+  fpc (b_fn c3_bpre) = [4; 2] /\ fpc (b_fn c3_bs1) = [3; 3] /\
+  (mu_s (absB c3_bpre), mu_s (absB c3_bs1)) = (2728, 2701).
+Proof. repeat split. Qed.
+Example C03_S_chain_bounded_nonvacuous : (1 <= mu_s (absB c3_bpre)).
+Proof.
+  apply (C03_S_chain_bounded 1 (absB c3_bpre) (absB c3_bs1) (proj2 c3_bpre_inv)).
+  eapply sc_S; [exact (proj1 C03_B_lockstep_nonvacuous)|apply sc_0].
+Qed.
+Example C03_B_process_terminates_nonvacuous : exists b', processB pick0 ord_id 5000 c3_bpre = Some b'.
+Proof.
+  destruct c3_bpre_inv as [I T].
+  apply (C03_B_process_terminates pick0 ord_id perm_ok_id 5000 c3_bpre I T). vm_compute. reflexivity.
+Qed.
+Example C03_B_loop_is_pstepB_nonvacuous :
+  processB pick0 ord_id 8 c3_bpre = processB pick0 ord_id 7 c3_bs1.
+Proof. rewrite (C03_B_loop_is_pstepB pick0 ord_id 7 c3_bpre), c3_bstep1. reflexivity. Qed.
+
+Example C03_B_refines_S_nonvacuous : sruns init c3_rep (absB c3_b) /\ BInv c3_b.
+Proof. exact (C03_B_refines_S pick0 ord_id 400 c3_rep c3_b perm_ok_id c3_brun). Qed.
+(* a live rule in the middle of a history: the cached row [Some 0] is _compute_shift of the table *)
+Example C03_B_cached_shifts_current_nonvacuous :
+  nth 0 (b_shifts c3_bmid) [] =
+  ForestComputeShift.compute_shift (Some 2) [Some 0] [2].
+Proof.
+  assert (runB pick0 ord_id 400 initB (firstn 1 c3_fin) = Some c3_bmid) as Hr by (vm_compute; reflexivity).
+  exact (C03_B_cached_shifts_current pick0 ord_id 400 _ c3_bmid 0%nat perm_ok_id Hr
+           ltac:(vm_compute; reflexivity) ltac:(vm_compute; discriminate)).
+Qed.
+Example C03_B_never_asserts_nonvacuous : b_fail c3_b' = false.
+Proof. exact (C03_B_never_asserts pickL ord_rev 400 c3_ops' c3_b' perm_ok_rev c3_brun'). Qed.
+(* B (pickL, reversed set order) against A (pick0), same history *)
+Example C03_B_refines_A_nonvacuous :
+  function_dictB c3_bo = function_dict c3_st /\ pumping_subuniverseB c3_bo = [0; 1; 3; 4]%nat /\
+  (forall c, pumping_answerB c3_bo c = pumping_answer c3_st c).
+Proof.
+  destruct (C03_B_refines_A pick0 ord_id 400 pick0 200 c3_ops c3_bo c3_st perm_ok_id c3_bruno c3_run)
+    as (_ & _ & A & B & D).
+  split; [exact A|]. split; [rewrite B; reflexivity|exact D].
+Qed.
+(* the internal states differ: layer A has no cache, and its value table is longer (the code does
+   not look up the children of a rule whose parent is already infinite): the conclusion is about the
+   answers only *)
+Definition c3_lazy : list op := [AddKey (mkkey 0 []); AddKey (mkkey 0 [(3%nat, 0)])].
+Example c3_tables_differ :
+  fval (b_fn (runB_total pick0 ord_id c3_lazy)) = [None] /\
+  fn (run_total pick0 c3_lazy) = [None; Some 0; Some 0; Some 0] /\
+  function_dictB (runB_total pick0 ord_id c3_lazy) = function_dict (run_total pick0 c3_lazy).
+Proof. repeat split. Qed.
+Example C03_B_sound_complete_nonvacuous :
+  pumps (keys_of c3_rep) 3 /\ ~ pumps (keys_of c3_rep) 5 /\ terms (keys_of c3_rep) 5 0.
+Proof.
+  split; [apply (C03_B_sound_complete pick0 ord_id 400 c3_rep c3_b perm_ok_id c3_brun 3%nat); reflexivity|].
+  split; [intros P; apply (C03_B_sound_complete pick0 ord_id 400 c3_rep c3_b perm_ok_id c3_brun 5%nat) in P; discriminate|].
+  apply (C03_B_sound_complete pick0 ord_id 400 c3_rep c3_b perm_ok_id c3_brun 5%nat). reflexivity.
+Qed.
+Example C03_B_order_independent_nonvacuous : forall c, getf (fB c3_bo) c = getf (fB c3_b') c.
+Proof.
+  exact (C03_B_order_independent pick0 ord_id 400 pickL ord_rev 400 c3_ops c3_ops' c3_bo c3_b'
+           perm_ok_id perm_ok_rev c3_bruno c3_brun' c3_same_set).
+Qed.
+Definition c3_bf : tmB := Eval vm_compute in runB_total pick0 ord_id c3_fin.
+Definition c3_bf' : tmB := Eval vm_compute in runB_total pickL ord_rev c3_fin'.
+Example C03_B_monotone_nonvacuous :
+  forall c, match getf (fB c3_bf) c, getf (fB c3_bf') c with
+            | None, None => True | None, Some _ => False
+            | Some n, Some m => n <= m | Some _, None => True end.
+Proof.
+  refine (C03_B_monotone pick0 ord_id 400 pickL ord_rev 400 c3_fin c3_fin' c3_bf c3_bf'
+            perm_ok_id perm_ok_rev _ _ c3_incl); vm_compute; reflexivity.
+Qed.
+Example C03_B_monotone_values :
+  map (getf (fB c3_bf)) [0; 1; 2]%nat = [Some 3; Some 1; Some 0] /\
+  map (getf (fB c3_bf')) [0; 1; 2]%nat = [Some 8; Some 6; Some 5].
+Proof. split; reflexivity. Qed.
+Example C03_B_pumping_subuniverse_nonvacuous :
+  pumping_subuniverseB c3_b = [0; 1; 2; 3]%nat /\
+  (pumps (keys_of c3_rep) 3 /\ forall c s, In (c, s) [(0%nat, -1); (1%nat, -2)] -> pumps (keys_of c3_rep) c).
+Proof.
+  split; [reflexivity|].
+  apply (C03_B_pumping_subuniverse pick0 ord_id 400 c3_rep c3_b perm_ok_id c3_brun 2%nat). simpl. auto.
+Qed.
+Example C03_B_terminates_nonvacuous : exists b, runB pickL ord_rev (S (fuel_boundS c3_rep)) initB c3_rep = Some b.
+Proof. apply (C03_B_terminates pickL ord_rev c3_rep _ perm_ok_rev). apply Nat.le_succ_diag_r. Qed.
+Example C03_B_terminates_value : fuel_boundS c3_rep = 2787%nat /\ fuel_bound c3_rep = 1251%nat /\
+  runB pick0 ord_id 5 initB c3_rep = None.
+Proof. repeat split; vm_compute; reflexivity. Qed.
+Example C03_B_fuel_boundS_explicit_nonvacuous :
+  Z.of_nat (fuel_boundS c3_rep) = (2 * 12 + 4 + 1) * ((5 + 1) * ((5 + 1 + 1) * 2 + 2)) + 3.
+Proof. exact (C03_B_fuel_boundS_explicit c3_rep). Qed.
+Example C03_fuel_bound_le_S_nonvacuous : (1251 <= 2787)%nat.
+Proof. exact (C03_fuel_bound_le_S c3_rep). Qed.
+Example C03_B_run_total_nonvacuous : runB pickL ord_rev (fuel_boundS c3_ops') initB c3_ops' = Some c3_b'.
+Proof. exact (C03_B_run_total pickL ord_rev c3_ops' perm_ok_rev). Qed.
+Example C03_B_fuel_irrelevant_nonvacuous : c3_b = runB_total pick0 ord_id c3_rep.
+Proof. exact (C03_B_fuel_irrelevant pick0 ord_id 400 c3_rep c3_b perm_ok_id c3_brun). Qed.
+Example C03_B_refines_A_total_nonvacuous :
+  function_dictB (runB_total pickL ord_rev c3_rep) = function_dict (run_total pick0 c3_rep).
+Proof. exact (proj1 (proj2 (proj2 (C03_B_refines_A_total pickL ord_rev pick0 c3_rep perm_ok_rev)))). Qed.
+Example C03_B_harness_obs_equal_nonvacuous :
+  fst (run_obsB (fuel_forB c3_rep) initB c3_rep []) = run_obs (fuel_for c3_rep) init c3_rep /\
+  length (run_obs (fuel_for c3_rep) init c3_rep) = 5%nat.
+Proof. split; [exact (C03_B_harness_obs_equal c3_rep [])|vm_compute; reflexivity]. Qed.
+Example C03_B_harness_never_out_of_fuel_nonvacuous :
+  ~ In (L [I (-1)]) (fst (run_obsB (fuel_forB c3_rep) initB c3_rep [])) /\
+  fst (run_obsB 1 initB c3_rep []) = [L [I (-1)]].
+Proof. split; [exact (proj1 (C03_B_harness_never_out_of_fuel c3_rep []))|vm_compute; reflexivity]. Qed.
+
 Print Assumptions C03_sound_complete.
 Print Assumptions C03_order_independent.
 Print Assumptions C03_permutation_independent.
@@ -589,3 +1001,30 @@ Print Assumptions C03_total_pumping_subuniverse.
 Print Assumptions C03_harness_never_out_of_fuel.
 Print Assumptions C03_hold_test_is_source.
 Print Assumptions C03_correct_gap_is_source.
+Print Assumptions C03_A_is_S.
+Print Assumptions C03_S_sound_complete.
+Print Assumptions C03_S_order_independent.
+Print Assumptions C03_S_monotone.
+Print Assumptions C03_S_pumping_subuniverse.
+Print Assumptions C03_S_iteration_decreases.
+Print Assumptions C03_S_chain_bounded.
+Print Assumptions C03_B_lockstep.
+Print Assumptions C03_B_loop_is_pstepB.
+Print Assumptions C03_B_refines_S.
+Print Assumptions C03_B_cached_shifts_current.
+Print Assumptions C03_B_never_asserts.
+Print Assumptions C03_B_refines_A.
+Print Assumptions C03_B_sound_complete.
+Print Assumptions C03_B_order_independent.
+Print Assumptions C03_B_monotone.
+Print Assumptions C03_B_pumping_subuniverse.
+Print Assumptions C03_B_terminates.
+Print Assumptions C03_B_process_terminates.
+Print Assumptions C03_B_fuel_boundS_explicit.
+Print Assumptions C03_fuel_bound_le_S.
+Print Assumptions C03_B_same_fuel_bound_refuted.
+Print Assumptions C03_B_run_total.
+Print Assumptions C03_B_fuel_irrelevant.
+Print Assumptions C03_B_refines_A_total.
+Print Assumptions C03_B_harness_obs_equal.
+Print Assumptions C03_B_harness_never_out_of_fuel.
